@@ -257,6 +257,7 @@ def cases(ctx):
     yield from addr_cases(ctx)
     # --- NSEC/NSEC3/CSYNC type bitmaps (dns/rdtypes/util.py Bitmap)
     yield from bitmap_cases(ctx)
+    yield from rdtype_cases(ctx)
     # --- the regular record types through the schema model
     yield from schema_cases(ctx)
     # --- whole records (oracle only)
@@ -270,6 +271,7 @@ SCHEMA = {
     51: ("d8 d8 d16 hextok", ["algorithm", "flags", "iterations", "salt"]),
     48: ("d16 d8 alg b64", ["flags", "protocol", "algorithm", "key"]), 60: ("d16 d8 alg b64", ["flags", "protocol", "algorithm", "key"]),
     257: ("d8 tag q", ["flags", "tag", "value"]),
+    47: ("n bm", ["next", "windows"]), 62: ("d32 d16 bm", ["serial", "flags", "windows"]),
     2: ("n", ["target"]), 5: ("n", ["target"]), 12: ("n", ["target"]), 39: ("n", ["target"]), 23: ("n", ["target"]),
     15: ("d16 n", ["preference", "exchange"]), 18: ("d16 n", ["preference", "exchange"]),
     21: ("d16 n", ["preference", "exchange"]), 36: ("d16 n", ["preference", "exchange"]),
@@ -307,6 +309,8 @@ def gen_field(rng, kind):
                 return ls
     if kind in ("hex", "b64"):
         return gen_bytes(rng, 80) or b"\0"
+    if kind == "bm":
+        return [] if rng.random() < 0.08 else windows_of_types({t for t in c05lib.gen_types(rng) if t})
     if kind == "hextok":
         return gen_bytes(rng, 40)
     if kind == "alg":
@@ -343,7 +347,7 @@ def mkname(ls):
 
 def build_rdata(rdtype, vals):
     kinds = SCHEMA[rdtype][0].split()
-    args = [mkname(v) if k == "n" else v for k, v in zip(kinds, vals)]
+    args = [mkname(v) if k == "n" else [(w, bytes(b)) for w, b in v] if k == "bm" else v for k, v in zip(kinds, vals)]
     cls = dns.rdata.get_rdata_class(dns.rdataclass.IN, rdtype)
     return cls(dns.rdataclass.IN, rdtype, *args)
 
@@ -448,6 +452,26 @@ def windows_of_types(types):
     return out
 
 
+def rdtype_cases(ctx):
+    rng = ctx.rng
+    names = list(dns.rdatatype.RdataType.__members__)
+    for n in names:
+        yield "rdtype-from-text", [57, enc(n)]
+        yield "rdtype-from-text", [57, enc(n.lower().replace("_", "-"))]
+        yield "rdtype-to-text", [56, int(dns.rdatatype.RdataType[n])]
+    for t in ["TYPE", "TYPE0", "TYPE1", "type65535", "TYPE65536", "TYPE-1", "TYPE1x", "TYP1", "", "A-", "NSAP_PTR", "NSAP-PTR", "nsap-ptr",
+              "N-SAP-PTR", "TYPE00012", "TYPE99999999999999999999", "ANY", "none", "Type33", " A", "A ", "TYPE1_0", "TYPE+5"]:
+        yield "rdtype-from-text", [57, enc(t)]
+    vals = range(65536) if not ctx.quick else [rng.randrange(65536) for _ in range(150)] + [0, 255, 256, 263, 264, 32768, 32769, 32770, 65535]
+    for v in vals:
+        yield "rdtype-to-text", [56, v]
+    for _ in range(ctx.n(100, 3000)):
+        v = rng.randrange(70000)
+        t = "TYPE%d" % v
+        yield "rdtype-from-text", [57, enc(t if rng.random() < 0.7 else mutate_ascii(rng, t.encode()).decode("latin-1"))]
+        yield "rdtype-from-text", [57, enc(mutate_ascii(rng, rng.choice(names).encode()).decode("latin-1"))]
+
+
 def bitmap_cases(ctx):
     rng = ctx.rng
     for _ in range(ctx.n(60, 2000)):
@@ -507,11 +531,13 @@ def in_model(kind, case):
     if case[0] in (51, 53) and any(c in (10, 13) or c > 127 for c in (case[1] if isinstance(case[1], (bytes, list)) else b"")):
         # regular-expression corner cases ('.' and '$' around line breaks) and non-ASCII digits: outside the model
         return False
+    if case[0] == 57 and any(c > 127 for c in (case[1] if isinstance(case[1], (bytes, list)) else b"")):
+        return False  # str.upper() / isdecimal() of non-ASCII text
     if case[0] == 41:
         text = dec(case[2])
         # names go through the IDNA codec when the text is not ASCII; the generic-syntax branch of a
         # schema type needs the wire codec (C02): neither is part of this model
-        if any(ord(c) > 127 for c in text) and "n" in SCHEMA[case[1]][0]:
+        if any(ord(c) > 127 for c in text) and ("n" in SCHEMA[case[1]][0] or "bm" in SCHEMA[case[1]][0]):
             return False
         if "a6" in SCHEMA[case[1]][0] and ("\\" in text or any(ord(c) > 127 for c in text)):
             # escapes can put a line break into the address text (regular-expression corner case)
@@ -605,6 +631,15 @@ def impl(case):
                 return Err(105, "ValueError")
         if op == 53:
             return dns.ipv6.inet_aton(dec(case[1]))
+        if op == 56:
+            return enc(dns.rdatatype.to_text(case[1]))
+        if op == 57:
+            try:
+                return int(dns.rdatatype.from_text(dec(case[1])))
+            except dns.rdatatype.UnknownRdatatype:
+                return Err(25, "UnknownRdatatype")
+            except ValueError:
+                return Err(105, "ValueError")
         if op == 54:
             bm = dns.rdtypes.util.Bitmap([(w, bytes(b)) for w, b in case[1]])
             return [int(dns.rdatatype.from_text(tok)) for tok in bm.to_text().split()]
@@ -620,6 +655,9 @@ def impl(case):
             out = []
             for k, a in zip(SCHEMA[case[1]][0].split(), SCHEMA[case[1]][1]):
                 v = getattr(rd, a)
+                if k == "bm":
+                    out.append([[int(w), bytes(b)] for w, b in v])
+                    continue
                 if k == "a4":
                     v = dns.ipv4.inet_aton(v)
                 elif k == "a6":
